@@ -21,6 +21,9 @@
 package compile
 
 import (
+	"fmt"
+	"math"
+
 	"go.uber.org/thriftrw/ast"
 	"go.uber.org/thriftrw/wire"
 )
@@ -62,6 +65,16 @@ func compileEnum(file string, src *ast.Enum) (*EnumSpec, error) {
 		}
 		prev = value
 
+		if value < math.MinInt32 || value > math.MaxInt32 {
+			return nil, compileError{
+				Target: src.Name + "." + astItem.Name,
+				Line:   astItem.Line,
+				Reason: fmt.Errorf(
+					"enum value %v is out of bounds: "+
+						"enum values must fit in 32 bits", value),
+			}
+		}
+
 		itemAnnotations, err := compileAnnotations(astItem.Annotations)
 		if err != nil {
 			return nil, compileError{
@@ -70,7 +83,6 @@ func compileEnum(file string, src *ast.Enum) (*EnumSpec, error) {
 				Reason: err,
 			}
 		}
-		// TODO bounds check for value
 		item := EnumItem{
 			Name:        astItem.Name,
 			Value:       int32(value),
